@@ -34,6 +34,9 @@ def obligations(tier):
     for ix in (["0,1"] if tier == "quick" else ["0,1", "7,2", "0,6,1"]):
         obs.append(Ob(f"C12.note_end_after_start[{ix}]", "CH", "harness.h_integrated", "note_section", 900, {"VF_IDX": ix, "VF_ORDER": 0},
                       funcs=(IN + "NoteEvent.from_parsed_data",), bounds="end time = time(tick+longest sustain) >= start"))
+    obs.append(Ob("C12.note_end_after_start[0,1;equal lengths]", "CH", "harness.h_integrated", "note_section", 900, {"VF_IDX": "0,1", "VF_ORDER": 0, "VF_EQSUS": 1},
+                  funcs=(IN + "NoteEvent.from_parsed_data", IN + "InstrumentTrack.from_chart_lines"),
+                  bounds="two notes carrying the same (one symbolic) length, one of them possibly spanning the tempo change"))
     obs += _sync_section("C12", ["0,1,3"]) + [_two_maps("C12")]
     obs.append(Ob("C12.time_add", "CH", "harness.h_extra", "time_add_unit", 300, funcs=("chartparse.time.add",),
                   bounds="6 representative stamps (incl. several days) x 8 offsets x float/timedelta form: exact timedelta addition"))
